@@ -9,8 +9,9 @@ class's own loading()/x, history variations, unit arguments.
 
 Section 2b anchors the quad-based models (Toth, Jensen-Seaton, DR, DA) AT THE ORIGIN: Π(p) against ∫_{-∞}^{ln p} n(e^u) du of the
 class's own loading (Props/C11/Origin0.lean: change of variables, uniqueness of the origin-anchored primitive, sign of a primitive
-anchored elsewhere, DA at m = 1 in closed form), over the parameter box including its corners, down to p = 1e-300 (non-negative,
-non-decreasing, -> 0).  Section 3b runs point isotherms with closely spaced / very small pressures in every pressure unit and mode,
+anchored elsewhere, DA at m = 1 in closed form; Props/C11/LogScale.lean: DR / DA as the improper integral over s = RT/e ln p that the
+repaired methods hand to quad — finding S49-C11a), over the parameter box including its corners (DR / DA: RT/e from 3 down to 1e-3),
+down to p = 1e-300 (non-negative, non-decreasing, -> 0).  Section 3b runs point isotherms with closely spaced / very small pressures in every pressure unit and mode,
 queries a hair above/below/at each knot, in every unit/mode of the query (Props/C11/Scale.lean: the fold is invariant under a change
 of pressure unit, continuous across the knots) against the exact-rational fold and an exact-rational reference.
 Sections 3 and 3b run on BOTH branches of hysteretic point isotherms (desorption rows stored after the adsorption rows, in order of decreasing
@@ -64,13 +65,18 @@ def ref_integral(f, a, b, panels=8):
     return val
 
 
-def ref_from_origin(f, p, w0=1.5, grow=1.3, umin=-740.0):
+def ref_from_origin(f, p, w0=1.5, grow=1.3, umin=-740.0, tail=None):
     """∫_0^p f(x)/x dx = ∫_{-∞}^{ln p} f(e^u) du (Props/C11/Origin0.lean `integral_div_eq_integral_comp_exp`): Gauss-Legendre panels going
-    DOWN from ln p with geometrically growing widths until they no longer contribute (f increasing: the contributions decrease) or e^u underflows."""
+    DOWN from ln p with geometrically growing widths until they no longer contribute (f increasing: the contributions decrease) or e^u leaves the
+    range of the doubles.  `tail(u0)` = ∫_{-∞}^{u0} f(e^u) du from the model equation, for the part of the axis where p = e^u is not a double any
+    more and the class's own loading cannot be asked (DR/DA with RT << e: the loading is still a sizeable fraction of n_m at p = 1e-300); with a
+    tail the panels stop at `umin` = ln of a NORMAL double (below 2.2e-308 the few bits of e^u would spoil ln(e^u) = u)."""
     import numpy as np
     xs, ws = gl()
     top = math.log(p)
     tot, w, small = 0.0, w0, 0
+    if tail is not None and top <= umin:
+        return tail(top)
     while top > umin:
         lo = max(top - w, umin)
         u = 0.5 * (top - lo) * xs + 0.5 * (top + lo)
@@ -83,7 +89,16 @@ def ref_from_origin(f, p, w0=1.5, grow=1.3, umin=-740.0):
         else:
             small = 0
         top, w = lo, w * grow
+    if tail is not None and top <= umin:
+        tot += tail(umin)
     return tot
+
+
+def da_tail(n_m, a, m):
+    """u0 -> ∫_{-∞}^{u0} n_m exp(-(a|u|)^m) du = n_m/(a m) Γ(1/m) Q(1/m, (a|u0|)^m)   (u0 <= 0; substitution t = (a|u|)^m; Q the regularised upper
+    incomplete gamma function; m = 1: n_m e^{a u0}/a, the closed form of Origin0.lean `da_m1_spread_eq_integral`; DR is m = 2)."""
+    from scipy import special
+    return lambda u0: n_m / (a * m) * float(special.gamma(1.0 / m)) * float(special.gammaincc(1.0 / m, (a * abs(u0)) ** m))
 
 
 def corner_params(name, rng):
@@ -104,14 +119,14 @@ def corner_params(name, rng):
         elif r < 0.5:
             par["c"] = rng.choice([0.1, 1.0, 4.0])
     else:
-        # a = RT/e in [A_MIN, 3].  TODO(candidate defect, reported): for small a the unchanged DR/DA.spreading_pressure (scipy quad of a p^(a-1)-like
-        # integrand at default settings; it emits IntegrationWarning and returns its estimate) is wrong far beyond the S37 envelope — e.g. N2 at
-        # 77.355 K, DA(n_m=10, e=22000, m=3), a = 0.029: Π(0.5) = 386.7 vs 298.5 by the closed form n_m/(a m) Γ(1/m) Q(1/m, (a|ln p|)^m); DR(e=25000): 1 % off;
-        # for a < 0.01 up to a factor 3.  That region stays out of the generator until the library is repaired (known finding S37 is its mild end).
-        # (Also: below a ≈ 0.05 the tail of ∫ n(e^u) du beyond the underflow of e^u is no longer negligible for m ≈ 1, so `ref_from_origin` would need
-        # an analytic tail there.)
+        # a = RT/e in [A_LOW, 3] (e has no upper bound in the models: N2 at 77 K with e = 22 kJ/mol is a = 0.029).  Finding S49-C11a (repaired by a
+        # fix: commit, see known_findings.json): DR/DA.spreading_pressure used scipy quad on n(p)/p from 0 — a p^(a-1)-like integrand at default
+        # settings; quad emitted IntegrationWarning and returned its estimate — and was wrong far beyond 1e-3 for small a, e.g. N2 at 77.355 K,
+        # DA(n_m=10, e=22000, m=3), a = 0.029: Π(0.5) = 374.5 vs 298.5 by the closed form n_m/(a m) Γ(1/m) Q(1/m, (a|ln p|)^m); DR(e=25000): 0.8 % off;
+        # a < 0.01: a factor 3 to 6.  The repaired method integrates n(e^u) du over u = ln p (Origin0.lean `integral_div_eq_integral_comp_exp`).
+        # Below a ≈ 0.04 the part of ∫ n(e^u) du beyond the range of the doubles is not negligible: `ref_from_origin(tail=da_tail(...))`.
         temp = rng.uniform(77.0, 400.0)
-        a = A_MIN if r < 0.15 else logu(rng, A_MIN, 3.0)
+        a = A_MIN if r < 0.1 else A_LOW if r < 0.2 else logu(rng, A_LOW, A_MIN) if r < 0.55 else logu(rng, A_MIN, 3.0)
         par["e"] = R_GAS * temp / a
         if name == "DA":
             r2 = rng.random()
@@ -125,6 +140,7 @@ def corner_params(name, rng):
 
 
 A_MIN = 0.083     # = R·300 K / 3e4 J/mol, the lower edge of the box of pgv.models.sample_params
+A_LOW = 1e-3      # lower edge of a = RT/e in section 2b (e = 640 kJ/mol at 77 K: far beyond any measured characteristic energy, inside the bounds of the model)
 
 # pressure units (Pa per unit) — the harness's own table, independent of pygaps.units
 P_UNITS = {"Pa": 1.0, "kPa": 1e3, "MPa": 1e6, "mbar": 100.0, "bar": 1e5, "atm": 101325.0, "mmHg": 133.322, "torr": 133.322}
@@ -194,6 +210,14 @@ def cond_floor(ps, ls, q):
     return 16 * 2.3e-16 * tot
 
 
+def edge_position(P, q, foreign):
+    """Signature keys of a point-isotherm query, from the INPUT alone: is the pressure given in a unit / mode other than the stored one, and does it sit
+    on the last (first) data point as the library itself converts it to that unit — within 4 ulp, the reach of one conversion there and back."""
+    ulp4 = 4 * 2.3e-16
+    where = "last data point" if abs(q - P[-1]) <= ulp4 * P[-1] else "first data point" if abs(q - P[0]) <= ulp4 * P[0] else "elsewhere"
+    return {"query_unit": "foreign" if foreign else "native", "query_position": where}
+
+
 def interp_exact(fp, fl, fq):
     """value of the interpolant at fq (exact rational): Henry's law below the first knot, the chord of the segment (a, b] that contains fq"""
     if fq <= fp[0]:
@@ -201,6 +225,21 @@ def interp_exact(fp, fl, fq):
     j = max(jj for jj in range(len(fp)) if fp[jj] < fq)
     j = min(j, len(fp) - 2)
     return fl[j] + (fl[j + 1] - fl[j]) / (fp[j + 1] - fp[j]) * (fq - fp[j])
+
+
+def fold_with_lq(ps, ls, q, k, lq):
+    """`spreadPoint` of Model/SpreadPoint.lean for k = (number of points below q) >= 1 with a GIVEN loading `lq` at the query (exact rationals, logarithms as
+    log1p of the exact relative step): loadings[0] + the whole segments below + slope (q - p_{k-1}) + intercept ln(q / p_{k-1}), slope = (lq - l_{k-1}) / (q - p_{k-1}).
+    Returns the value and the rounding floor of that last term in double arithmetic (as `cond_floor`: 16 ulp of |intercept| + |slope (q - p_{k-1})|): when `lq`
+    does not tend to l_{k-1} as q -> p_{k-1} the slope is unbounded just above a data point and the two terms cancel."""
+    fp, fl, fq, flq = [frac(p) for p in ps], [frac(l) for l in ls], frac(q), frac(lq)
+    area = fl[0]
+    for i in range(k - 1):
+        slope = (fl[i + 1] - fl[i]) / (fp[i + 1] - fp[i])
+        area += slope * (fp[i + 1] - fp[i]) + (fl[i] - slope * fp[i]) * frac(math.log1p(float((fp[i + 1] - fp[i]) / fp[i])))
+    slope = (flq - fl[k - 1]) / (fq - fp[k - 1])
+    area += slope * (fq - fp[k - 1]) + (fl[k - 1] - slope * fp[k - 1]) * frac(math.log1p(float((fq - fp[k - 1]) / fp[k - 1])))
+    return float(area), 16 * 2.3e-16 * float(abs(fl[k - 1] - slope * fp[k - 1]) + abs(slope * (fq - fp[k - 1])))
 
 
 def fold_request(ps, ls, q):
@@ -262,19 +301,8 @@ def run(ck):
     import warnings as _warnings
     from scipy.integrate import IntegrationWarning
     worst = {}
-    suppressed = []
-
-    def quad_nonconvergence(name, sig, detail, dev, scale):
-        """The library's own quad call reported (IntegrationWarning) that it did not converge and the value is off by `dev`.  Inside the envelope
-        measured on the unchanged tree (<= 9e-4 Π(1) for DA, 7e-5 Π(1) for DR over the box a = RT/e >= 0.083) this is the known finding S37 (DA).
-        DR shows the same behaviour near a = RT/e = 0.085 (increments off by up to 2.2e-3 relative, always with the warning): known finding S37b.
-        A deviation without the warning, or outside the envelope, is not covered by either entry."""
-        if dev > 3e-3 * scale:
-            return False
-        if len(suppressed) < 20:
-            suppressed.append({"model": name, **detail, "deviation": dev})
-        ck.fail_case({**sig, "clause": "additive/integral", "quad": "IntegrationWarning"}, detail)
-        return True
+    # (S37 / S37b — DA / DR values inside a 3e-3 envelope whenever scipy's quad warned that it did not converge — were the mild end of S49-C11a and are
+    #  repaired with it: there is no excuse for a deviation any more, with or without an IntegrationWarning.)
     for name in SPREAD:
         for iv in range(nvec):
             par = sample_params(name, rng)
@@ -303,9 +331,8 @@ def run(ck):
                         err = abs((sp - prev[1]) - ref) / max(abs(ref), 1e-300)
                         worst[name] = max(worst.get(name, 0), err)
                         if err > 10 * tol:
-                            det = {"params": par, "a": prev[0], "b": p, "got": sp - prev[1], "reference": ref}
-                            if not ((warned or prev[2]) and name in ("DR", "DA") and quad_nonconvergence(name, sig, det, abs((sp - prev[1]) - ref), ref_from_origin(f, 1.0))):
-                                ck.fail_case({**sig, "clause": "additive/integral"}, det)
+                            ck.fail_case({**sig, "clause": "additive/integral"}, {"params": par, "a": prev[0], "b": p, "got": sp - prev[1], "reference": ref,
+                                                                                 "quad_warned": bool(warned or prev[2])})
                 else:
                     # ∫_0^lo n/x ≈ n(lo) for the Henry-like start (Freundlich: m·n(lo))
                     head = f(lo) * (par["m"] if name == "Freundlich" else 1.0)
@@ -359,12 +386,20 @@ def run(ck):
                 sc = 1.0 / (par["K"] if name == "Toth" else par["K"] / par["a"])      # pressure at which the loading leaves Henry's law
                 qs = [sc * x for x in (1e-200, 1e-30, 10 ** rng.uniform(-14, -7), 10 ** rng.uniform(-7, -3), logu(rng, 1e-2, 1e1), logu(rng, 1e1, 1e4))]
             qs = sorted(set(qs))
+            a_ = R_GAS * temp / par["e"] if name in REL_ONLY else None
+            tail = da_tail(par["n_m"], a_, par.get("m", 2.0)) if name in REL_ONLY else None
             with np.errstate(all="ignore"):
-                refs = [ref_from_origin(f, q) for q in qs]
+                refs = [ref_from_origin(f, q, umin=-700.0, tail=tail) if tail else ref_from_origin(f, q) for q in qs]
             full = max(refs)
+            if tail:
+                # the model equation behind the tail is the class's own loading: n(e^u) = n_m exp(-(a|u|)^m) where both can be evaluated
+                for u0 in (-650.0, -200.0, -3.0):
+                    mine = par["n_m"] * math.exp(-(a_ * abs(u0)) ** par.get("m", 2.0))
+                    if not abs(f(math.exp(u0)) - mine) <= 1e-9 * mine + 1e-290:
+                        ck.broken.append({"step": "DR/DA loading vs the model equation used for the tail of the reference integral",
+                                          "what": {"model": name, "params": par, "temperature": temp, "p": math.exp(u0), "loading": f(math.exp(u0)), "equation": mine}})
             if name == "DA" and par["m"] == 1.0:
                 # exact corner (Origin0.lean `da_m1_loading`, `da_m1_spread_eq_integral`): n = n_m p^a, Π = n_m p^a / a, a = RT/e — validates the reference itself
-                a_ = R_GAS * temp / par["e"]
                 for q, ref in zip(qs, refs):
                     exact = par["n_m"] * q ** a_ / a_
                     if abs(ref - exact) > 1e-9 * exact + 1e-12 * full:      # (the panels stop where e^u underflows: absolute floor)
@@ -389,17 +424,17 @@ def run(ck):
                           "quad_warned": bool(warned)}
                 # tolerance: scipy quad at its defaults (epsabs = epsrel = 1.49e-8) on a singular integrand; measured on the unchanged tree over
                 # 2e5 (model, parameters, p) without IntegrationWarning: |Π - ref| <= 0.7 (1e-4 |ref| + 1e-7) for DR, <= 0.25 of it for the others
-                tol = 2e-4 * abs(ref) + 2e-7
+                # DR / DA after the repair S49-C11a (quad over s = RT/e ln p, a smooth integrand of unit scale): |Π - closed form| <= 0.04 (1e-4 |Π| + 1e-7) over 4e4 cases of
+                # this generator and never an IntegrationWarning; the Gauss-Legendre reference itself is good to 1e-6 |Π| + 1e-8 (kink of |u|^m at u = 0): 2e-5 |ref| + 2e-7
+                tol = (2e-5 if name in REL_ONLY else 2e-4) * abs(ref) + 2e-7
                 dev = abs(sp - ref)
                 if not (sp == sp) or sp < -1e-12 * full:
                     fail0({**sig, "clause": "non-negative"}, detail)
                 elif dev > tol:
-                    # quad itself reported that it did not converge and returned its estimate anyway: S37 envelope, otherwise a failing input
-                    if not (warned and quad_nonconvergence(name, sig, detail, dev, full)):
-                        fail0({**sig, "clause": "integral from the origin"}, detail)
-                elif not warned:
+                    fail0({**sig, "clause": "integral from the origin"}, detail)
+                else:
                     worst0[name] = max(worst0.get(name, 0), dev / (1e-4 * abs(ref) + 1e-7))
-                if prev is not None and sp < prev - tol and not warned:
+                if prev is not None and sp < prev - tol:
                     fail0({**sig, "clause": "increasing"}, {**detail, "value_at_smaller_p": prev})
                 prev = sp
             # the value AT zero pressure
@@ -411,9 +446,8 @@ def run(ck):
                     z = repr(e)
             if z != 0.0:
                 fail0({**sig, "clause": "zero"}, {"params": par, "temperature": temp, "value_at_zero": z})
-    ck.cov["quad_nonconvergence_DR_not_alarmed"] = suppressed
     ck.cov["origin_anchored"] = {"cases": n_origin, "with_IntegrationWarning": n_warned,
-                                 "worst_deviation_over_(1e-4|ref|+1e-7)_without_warning": {k: float(f"{v:.3g}") for k, v in worst0.items()}}
+                                 "worst_deviation_over_(1e-4|ref|+1e-7)": {k: float(f"{v:.3g}") for k, v in worst0.items()}}
 
     # ------------------------------------------------------------------ 3. point isotherms: fold model (ℚ) vs the real method, BOTH branches
     # A hysteretic isotherm stores its desorption rows after the adsorption rows, in order of DECREASING pressure.  The spreading pressure of a
@@ -623,11 +657,11 @@ def run(ck):
                 eps = logu(rng, 1e-15, 1e-5)
                 qs += [pk, pk * (1 + eps), pk * (1 - eps), pk * (1 + 1e-12), pk * (1 - 1e-12), pk + 1e-9, pk - 1e-9, pk + logu(rng, 1e-11, 1e-7),
                        float(np.nextafter(pk, np.inf)), float(np.nextafter(pk, 0.0))]
-            # TODO(candidate defect, reported): with a FOREIGN unit/mode the unchanged spreading_pressure_at raises scipy's ValueError ("above the
-            # interpolation range") for queries at (or one ulp below) the last data point: loading_at converts the query back to the unit of the data and the
-            # round trip lands one ulp above the data.  Until that is repaired foreign-unit queries stay 1e-12 (relative) inside the ends of the data.
-            hi = P[-1] * (1 - 1e-12) if foreign else P[-1]
-            qs = sorted({q for q in qs if 0 < q <= hi and not (foreign and abs(q - P[0]) < 1e-12 * P[0] and q != P[0])})
+            # Queries run up to the last data point in EVERY unit / mode ("at the edge of the data range x unit arguments").  Known finding S49-C11b: with a
+            # FOREIGN unit / mode the unchanged spreading_pressure_at raises scipy's ValueError ("above the interpolation range") at the last data point
+            # (as converted by the library itself): its guard compares in the unit of the query, then loading_at converts the query back to the unit of
+            # the data and the round trip lands an ulp above the data; `edge_position` below puts exactly that input class into the signature.
+            qs = sorted({q for q in qs if 0 < q <= P[-1]})
             for q in qs:
                 req, k = fold_request(P, ls, q)
                 reqs2.append(req)
@@ -640,7 +674,7 @@ def run(ck):
     n_dis2, worst_pt, nfail = 0, {"reference": 0.0, "fold": 0.0, "unit": 0.0}, {}
 
     def fail_pt(clause, detail, **more):
-        key = (clause, detail.get("branch"))
+        key = (clause, detail.get("branch"), tuple(sorted(more.items())))          # (the cap is per signature: a known finding never uses up the quota of another failure)
         nfail[key] = nfail.get(key, 0) + 1
         if nfail[key] <= 4:
             ck.fail_case({"class": "PointIsotherm", "clause": clause, "branch": detail.get("branch"), **more}, detail)
@@ -652,7 +686,8 @@ def run(ck):
         try:
             got = float(iso.spreading_pressure_at(q, **kw))
         except Exception as e:  # noqa
-            fail_pt("integral of the interpolant", {**detail, "got": repr(e)}, outcome=err_class(e))
+            fail_pt("integral of the interpolant", {**detail, "got": repr(e)}, outcome=err_class(e), **edge_position(P, q, rep != native))
+            ck.count(("point-dense", br, tuple(ps), native, rep, q), bucket=f"point-dense:{br}:" + ("native" if rep == native else "foreign") + ":refused")
             last = None
             continue
         ref = exact_ref(P, ls, q)
@@ -703,11 +738,17 @@ def run(ck):
     # loading / material arguments, alone and combined, with and without a pressure unit / mode, on both branches, below the first point, inside
     # segments, at and a hair off the knots, at the edge of the data.  All loading conversions are linear, so Π simply scales — unless one part of the
     # method converts and another does not.
-    # TODO(consequence of the known findings S5a-S5g of C03, reported): when a fraction / percent loading basis (stored or requested) meets a CHANGE of
+    # Known finding S49-C11c (root: the known findings S5a-S5g of C03): when a fraction / percent loading basis (stored or requested) meets a CHANGE of
     # the material basis or unit, `PointIsotherm.loading` and `PointIsotherm.loading_at` convert differently on the unchanged tree (loading_at hands the
-    # STORED material representation to c_loading, loading the requested one; permanent conversion of a fraction isotherm relabels the material unit
-    # without converting), so spreading_pressure_at mixes two conversions: e.g. stored mass[cg] per mass[dg], requested loading_basis='percent',
-    # material_unit='mg': Π(0.18265) = 7.457 vs 9.227 for the converted columns.  That region stays out of the generator until S5 is repaired.
+    # STORED material representation to c_loading, loading the requested one).  spreading_pressure_at takes the data points from `loading` and the loading
+    # at the query from `loading_at`, so its value is the integral of no single interpolant (the chord of the last segment ends at the wrong height; p dΠ/dp is not the loading): e.g. stored mass[cg] per
+    # mass[dg], requested loading_basis='percent', material_unit='mg': Π(0.18265) = 7.457 vs 9.227 for the converted columns.  The region IS generated;
+    # oracle (A) runs there and a failure is attributed by a control experiment, not by a threshold: the observed value must be reproduced (1e-9) by the
+    # fold of Model/SpreadPoint.lean fed with the library's own `loading_at(query, same arguments)` as the loading at the query — the fold has that
+    # number as an input (`lq`) — while that number differs from the interpolant of the `loading` columns; only then the signature carries
+    # `last_segment: "loading_at disagrees with loading"` and matches S49-C11c.  Anything else in the region is a failing input like everywhere.
+    # Oracle (B) is not run in the region: whether `loading(...)` or the permanent conversion gives the RIGHT fraction after a material change is the
+    # subject of C03 (S5a: they differ); C11 asks that Π is the integral of the isotherm's own (converted) loading.
     import c01
     pg.Material("pgv_c11_mat", store=True, density=2.3, molar_mass=321.0)
     LST = [(b, u) for b in ("molar", "mass", "volume_gas", "volume_liquid") for u in c01.LTABLE[b]] + [("fraction", None), ("percent", None)]
@@ -738,6 +779,9 @@ def run(ck):
         for _ in range(3):
             kind = rng.choice(["loading_unit", "loading_basis", "material_unit", "material_basis", "loading_basis+material_basis", "loading_unit+material_unit",
                                "loading_basis+material_unit", "loading_unit+material_basis"])
+            in_s5 = rng.random() < 0.15          # weight on the fraction / percent x material-change corner (S49-C11c), so that every run reaches it
+            if in_s5:
+                kind = rng.choice(["loading_basis+material_unit", "loading_basis+material_basis"])
             rl, rm, kw = nl, nm, {}
             if "loading_unit" in kind:
                 if nl[1] is None:
@@ -747,7 +791,7 @@ def run(ck):
                 if rng.random() < 0.5:
                     kw["loading_basis"] = rl[0]
             if "loading_basis" in kind:
-                rl = rng.choice([x for x in LST if x[0] != nl[0]])
+                rl = rng.choice([x for x in LST if x[0] != nl[0] and (x[1] is None or nl[1] is None or not in_s5)])
                 kw["loading_basis"] = rl[0]
                 if rl[1] is not None:
                     kw["loading_unit"] = rl[1]
@@ -759,20 +803,20 @@ def run(ck):
             if "material_basis" in kind:
                 rm = rng.choice([x for x in MST if x[0] != nm[0]])
                 kw["material_basis"], kw["material_unit"] = rm
-            if (nl[1] is None or rl[1] is None) and rm != nm:
-                n_s5 += 1             # S5 region (see the TODO above)
-                continue
+            s5 = (nl[1] is None or rl[1] is None) and rm != nm          # fraction / percent basis x change of the material representation (see above)
+            n_s5 += s5
             rp = npz
             if rng.random() < 0.3:
                 rp = rng.choice([r for r in REPS if r != npz])
             pkw = dict(pressure_mode=rp[0], pressure_unit=rp[1]) if rp != npz or rng.random() < 0.2 else {}
             # the permanently converted copy
-            twin = clone_point(iso)
+            twin = None if s5 else clone_point(iso)          # (oracle (B) is not run in the fraction x material-change region, see above)
             try:
-                twin.convert_material(basis_to=rm[0], unit_to=rm[1])
-                twin.convert_loading(basis_to=rl[0], unit_to=rl[1])
-                if rp != npz:
-                    twin.convert_pressure(mode_to=rp[0], unit_to=rp[1])
+                if twin is not None:
+                    twin.convert_material(basis_to=rm[0], unit_to=rm[1])
+                    twin.convert_loading(basis_to=rl[0], unit_to=rl[1])
+                    if rp != npz:
+                        twin.convert_pressure(mode_to=rp[0], unit_to=rp[1])
             except Exception as e:  # noqa
                 ck.fail_case({"class": "PointIsotherm", "clause": "unit arguments converted first", "outcome": err_class(e)},
                              {"stored_in": [npz, nl, nm], "permanent_conversion_to": [rp, rl, rm], "error": repr(e)})
@@ -794,50 +838,72 @@ def run(ck):
                 for kk in rng.sample(range(len(P)), min(len(P), 2)):
                     pk = P[kk]
                     qs += [pk, pk * (1 + 1e-12), pk * (1 - 1e-12), pk * (1 + logu(rng, 1e-9, 1e-2)), float(np.nextafter(pk, np.inf)), float(np.nextafter(pk, 0.0))]
-                hi = P[-1] * (1 - 1e-12) if foreign else P[-1]          # (the foreign-unit round trip at the last point: see the TODO of section 3b)
-                qs = sorted({q for q in qs if 0 < q <= hi and not (foreign and abs(q - P[0]) < 1e-12 * P[0] and q != P[0])})
+                qs = sorted({q for q in qs if 0 < q <= P[-1]})          # (up to the last point in every unit: S49-C11b, see section 3b)
                 for q in qs:
                     req, k = fold_request(P, L, q)
                     reqs3.append(req)
-                    ctx3.append((iso, twin, br, {**bkw, **kw, **pkw}, bkw, (npz, nl, nm), (rp, rl, rm), ps, ls, P, L, q, k, kind))
+                    ctx3.append((iso, twin, br, {**bkw, **kw, **pkw}, bkw, (npz, nl, nm), (rp, rl, rm), ps, ls, P, L, q, k, kind, s5, foreign))
     try:
         reps3 = ck.drive("SpreadPoint", reqs3)
     except Exception as e:
         reps3 = None
         ck.broken.append({"step": "driver SpreadPoint (requested loading / material representation)", "what": str(e)[:500]})
-    n_dis3, worst_u, nfail3 = 0, {"converted columns": 0.0, "fold": 0.0, "permanently converted copy": 0.0}, {}
+    n_dis3, worst_u, nfail3, n_mixed = 0, {"converted columns": 0.0, "fold": 0.0, "permanently converted copy": 0.0}, {}, 0
 
     def fail_u(clause, br, kind, detail, **more):
-        key = (clause, br, kind)
+        key = (clause, br, kind, tuple(sorted(more.items())))
         nfail3[key] = nfail3.get(key, 0) + 1
         if nfail3[key] <= 2:
             ck.fail_case({"class": "PointIsotherm", "clause": clause, "branch": br, "arguments": kind, **more}, detail)
 
-    for idx, (iso, twin, br, allkw, bkw, stored, wanted, ps, ls, P, L, q, k, kind) in enumerate(ctx3):
+    for idx, (iso, twin, br, allkw, bkw, stored, wanted, ps, ls, P, L, q, k, kind, s5, foreign) in enumerate(ctx3):
         detail = {"branch": br, "stored_in": {"pressure": stored[0], "loading": stored[1], "material": stored[2]}, "branch_pressures_increasing": ps, "branch_loadings": ls,
                   "keyword_arguments": allkw, "requested": {"pressure": wanted[0], "loading": wanted[1], "material": wanted[2]},
                   "pressures_in_requested_representation": P, "loadings_in_requested_representation": L, "query": q}
-        ck.count(("point-units", br, stored, wanted, tuple(ps), q), bucket=f"point-result-units:{br}:{kind}:k={min(k, 2)}",
+        ck.count(("point-units", br, stored, wanted, tuple(ps), q), bucket=f"point-result-units:{br}:{kind}:k={min(k, 2)}" + (":fraction x material change" if s5 else ""),
                  sample={**detail, "model": reps3[idx][:60] if reps3 else None} if idx % 499 == 0 else None)
+        region = {"fraction_basis_with_material_change": True} if s5 else {}
         try:
             got = float(iso.spreading_pressure_at(q, **allkw))
         except Exception as e:  # noqa
-            fail_u("unit arguments converted first", br, kind, {**detail, "got": repr(e)}, outcome=err_class(e))
+            fail_u("unit arguments converted first", br, kind, {**detail, "got": repr(e)}, outcome=err_class(e), **edge_position(P, q, foreign), **region)
             continue
         ref = exact_ref(P, L, q)
         floor = cond_floor(P, L, q)
-        worst_u["converted columns"] = max(worst_u["converted columns"], abs(got - ref) / abs(ref))
-        if not abs(got - ref) <= 1e-9 * abs(ref) + floor:
-            fail_u("unit arguments converted first", br, kind, {**detail, "got": got, "integral_of_the_converted_interpolant": ref, "rounding_floor_of_the_formula": floor})
-            continue
+        fold_ok = None
         if reps3 is not None:
             r = reps3[idx].split()
+            fold_ok = r[0] == "ok" and (close(got, Fr(r[1]), rel=1e-10) or abs(got - float(Fr(r[1]))) <= floor)
+        # (in the fraction x material-change region a deviation between 1e-10 and 1e-9 — the S49-C11c deviation 1e-8 above a data point, where it is still small — is a failing input like
+        #  the larger ones, not a doubt about the fold model)
+        if not abs(got - ref) <= 1e-9 * abs(ref) + floor or (s5 and fold_ok is False):
+            more = dict(region)
+            if s5 and k > 0:
+                # control experiment for S49-C11c: the fold with the library's own loading_at(query) as the loading at the query (`lq` of Model/SpreadPoint.lean)
+                try:
+                    lq_real = float(iso.loading_at(q, **allkw))
+                    lq_cols = float(interp_exact([frac(x) for x in P], [frac(x) for x in L], frac(q)))
+                    mixed, floor_mixed = fold_with_lq(P, L, q, k, lq_real)
+                    if abs(got - mixed) <= 1e-9 * abs(mixed) + floor + floor_mixed and not abs(lq_real - lq_cols) <= 1e-9 * abs(lq_cols):
+                        more["last_segment"] = "loading_at disagrees with loading"
+                        detail = {**detail, "loading_at_query_by_loading_at": lq_real, "interpolant_of_loading_columns_at_query": lq_cols, "fold_with_the_loading_at_value": mixed,
+                                  "rounding_floor_of_its_last_term": floor_mixed}
+                        n_mixed += 1
+                except Exception as e:  # noqa
+                    detail = {**detail, "control_experiment": repr(e)}
+            fail_u("unit arguments converted first", br, kind, {**detail, "got": got, "integral_of_the_converted_interpolant": ref, "rounding_floor_of_the_formula": floor}, **more)
+            continue
+        worst_u["converted columns"] = max(worst_u["converted columns"], abs(got - ref) / abs(ref))
+        if reps3 is not None:
             if r[0] == "ok":
                 worst_u["fold"] = max(worst_u["fold"], abs(got - float(Fr(r[1]))) / abs(ref))
-            if not (r[0] == "ok" and (close(got, Fr(r[1]), rel=1e-10) or abs(got - float(Fr(r[1]))) <= floor)):
+            if not fold_ok:
                 n_dis3 += 1
                 if n_dis3 <= 3:
-                    ck.broken.append({"step": "correspondence Model/SpreadPoint.lean (requested representation)", "what": {"request": reqs3[idx][:300], "model": reps3[idx][:80], "implementation": got}})
+                    ck.broken.append({"step": "correspondence Model/SpreadPoint.lean (requested representation)",
+                                      "what": {"request": reqs3[idx][:300], "model": reps3[idx][:80], "implementation": got, "reference": ref, "rounding_floor": floor, "case": detail}})
+        if twin is None:
+            continue          # (oracle (B) belongs to C03 in the fraction x material-change region, see above)
         try:
             nat = float(twin.spreading_pressure_at(q, **bkw))
         except Exception as e:  # noqa
@@ -849,7 +915,7 @@ def run(ck):
             worst_u["permanently converted copy"] = max(worst_u["permanently converted copy"], abs(got - nat) / abs(nat))
             if not abs(got - nat) <= 1e-9 * abs(nat) + floor:
                 fail_u("unit arguments converted first", br, kind, {**detail, "got": got, "permanently_converted_copy_asked_natively": nat})
-    ck.cov["point_result_units"] = {"cases": len(ctx3), "correspondence_disagreements": n_dis3, "set_aside_S5_region": n_s5,
+    ck.cov["point_result_units"] = {"cases": len(ctx3), "correspondence_disagreements": n_dis3, "fraction_x_material_change_argument_sets": n_s5, "of_them_attributed_to_S49-C11c_by_the_control_experiment": n_mixed,
                                     "worst_relative_deviation": {k: float(f"{v:.3g}") for k, v in worst_u.items()}}
 
     # ------------------------------------------------------------------ 4. model isotherm: foreign units / modes converted first
@@ -888,7 +954,7 @@ def run(ck):
         temp = 77.355
         if name in REL_ONLY:
             native = ("relative", None)
-            par["e"] = R_GAS * temp / logu(rng, 0.2, 3.0)
+            par["e"] = R_GAS * temp / logu(rng, 0.01, 3.0)
             q_nat = logu(rng, 1e-4, 1.0)
         else:
             native = rng.choice(REPS)
@@ -938,17 +1004,22 @@ def run(ck):
     ck.cov["correspondence_disagreements"] = n_dis
     ck.cov["rule"] = ("closed-form Float copies vs Python; 13 models x seeded parameter vectors x pressures: Π vs composite Gauss-Legendre (log substitution) "
                       "of the class's own loading/x, differences, zero; quad-based models (Toth, Jensen-Seaton, DR, DA) over the parameter box with its corners "
-                      "(a = RT/e down to 0.083, m = 1 / near 1 / 3, heterogeneity exponents down to 0.1), p from 1e-300 to the validity range: Π vs the integral "
-                      "anchored at the origin (u = ln p panels down to underflow; DA m = 1 in closed form), non-negative, non-decreasing, zero at 0; "
+                      "(a = RT/e from 3 down to 1e-3, m = 1 / near 1 / 3, heterogeneity exponents down to 0.1), p from 1e-300 to the validity range: Π vs the integral "
+                      "anchored at the origin (u = ln p panels of the class's own loading down to the range of the doubles, DR/DA: plus the closed-form tail beyond it; "
+                      "DA m = 1 in closed form), non-negative, non-decreasing, zero at 0; "
                       "point isotherms: seeded increasing pressure grids (2-14 points; 60 % hysteretic: an independent desorption branch of 2-14 points "
                       "stored after the adsorption rows in decreasing pressure order, optionally down to (0, 0)) x both branches x "
                       "queries below/at/inside/at the edge: real method vs exact-rational fold model (desorption rows reversed) and vs per-segment quadrature, after cubic "
                       "queries and queries on the other branch, with unit arguments; dense point isotherms (half of them hysteretic, both branches queried): pressures 1e-9 … 1e5 in all 8 units and both relative modes, neighbours 1e-9 relative / "
                       "1e-10 absolute apart, queries at, one ulp / 1e-15 … 1e-5 relative / 1e-11 … 1e-7 absolute above and below knots, in the unit of the data and "
-                      "in two other units/modes: real method vs the exact-rational fold on the converted data, vs an exact-rational reference, vs the same "
-                      "pressure in the unit of the data, increments between min and max loading x d ln p; model isotherms stored and queried in every unit/mode; "
+                      "in two other units/modes, up to the last data point in every unit: real method vs the exact-rational fold on the converted data, vs an exact-rational reference, vs the same "
+                      "pressure in the unit of the data, increments between min and max loading x d ln p; result in any loading / material representation (27 x 19, fraction / percent with a "
+                      "change of the material representation included: attributed to S49-C11c by a control experiment) vs the fold on the converted columns and vs a permanently converted copy; "
+                      "model isotherms stored and queried in every unit/mode; "
                       "distinct = distinct (model, parameters, pressure) or (data set, unit, query)")
-    ck.assumptions += ["scipy.integrate.quad for Toth/Jensen-Seaton/DR/DA: compared with an independent quadrature (rel 1e-4); anchored at the origin: 2e-4 |Π| + 2e-7 "
-                       "(quad's default epsabs = epsrel = 1.49e-8 on a singular integrand; measured <= 0.7 (1e-4 |Π| + 1e-7) whenever quad does not warn)",
-                       "DR/DA: a = RT/e >= 0.083 (below that the unchanged library is inaccurate: reported, S37 is its mild end)",
+    ck.assumptions += ["scipy.integrate.quad for Toth/Jensen-Seaton/DR/DA: compared with an independent quadrature (rel 1e-4); anchored at the origin: 2e-4 |Π| + 2e-7 for Toth / "
+                       "Jensen-Seaton (quad's default epsabs = epsrel = 1.49e-8 on a singular integrand; measured <= 0.25 (1e-4 |Π| + 1e-7)), 2e-5 |Π| + 2e-7 for DR / DA "
+                       "(quad over the scaled logarithm after the repair S49-C11a: measured <= 0.04 (1e-4 |Π| + 1e-7) against the closed form; the Gauss-Legendre reference: 1e-6 |Π| + 1e-8)",
+                       "DR/DA: a = RT/e in [1e-3, 3]; for p = e^u below the range of the doubles the reference uses the model equation n_m exp(-(a|u|)^m) in closed form "
+                       "(incomplete gamma function), tied to the class's own loading at three pressures per parameter vector",
                        "numpy.log vs the logarithm inputs of the fold model: 1 ulp"]
